@@ -56,10 +56,18 @@ func checkC05(w *World, r *Result) {
 func checkColumnsCode(w *World, r *Result) {
 	fi := w.MustFunc("generator/go/sqlcrud.newColumnsCode")
 	info := fi.Pkg.TypesInfo
+	// the column loop, or the column loops when the lists are built in several passes over the same columns
 	var fl *fieldLoop
+	var fls []*fieldLoop
 	for _, l := range fieldLoops(w) {
 		if l.fn == fi && l.kind == "Column" {
-			fl = l
+			if fl == nil {
+				fl = l
+			}
+			if l.over != fl.over {
+				Undecided("newColumnsCode: loops over two different column lists (%s, %s)", fl.over, l.over)
+			}
+			fls = append(fls, l)
 		}
 	}
 	if fl == nil {
@@ -75,12 +83,14 @@ func checkColumnsCode(w *World, r *Result) {
 	}
 	var apps []app
 	common := map[string]int{}
-	for _, a := range appendStmts(info, fl.rs.Body, "") {
-		cs := reachConds(info, fi.Decl, fl.rs, a, fl.subst)
-		for _, c := range cs {
-			common[c]++
+	for _, l := range fls {
+		for _, a := range appendStmts(info, l.rs.Body, "") {
+			cs := reachConds(info, fi.Decl, l.rs, a, l.subst)
+			for _, c := range cs {
+				common[c]++
+			}
+			apps = append(apps, app{es(a.Lhs[0]), cs, a})
 		}
-		apps = append(apps, app{es(a.Lhs[0]), cs, a})
 	}
 	var guards []string
 	for c, n := range common {
@@ -154,8 +164,8 @@ func checkColumnsCode(w *World, r *Result) {
 	np := 0
 	for _, a := range apps {
 		call := a.a.Rhs[0].(*ast.CallExpr)
-		sp, ok := call.Args[1].(*ast.CallExpr)
-		if !ok || !isSprintf(info, &sp) {
+		sp := sprintfView(info, call.Args[1])
+		if sp == nil {
 			continue
 		}
 		format, vas := verbArgs(info, sp)
@@ -252,8 +262,8 @@ func checkStatements(w *World, r *Result) {
 		fi := w.MustFunc(q)
 		info := fi.Pkg.TypesInfo
 		ast.Inspect(fi.Decl.Body, func(x ast.Node) bool {
-			call, ok := x.(*ast.CallExpr)
-			if !ok || !isSprintf(info, &call) {
+			call := sprintfView(info, x)
+			if call == nil {
 				return true
 			}
 			format, vas := verbArgs(info, call)
@@ -483,8 +493,8 @@ func checkStatements(w *World, r *Result) {
 			return true
 		}
 		ast.Inspect(rs.Body, func(y ast.Node) bool {
-			call, ok := y.(*ast.CallExpr)
-			if !ok || !isSprintf(cinfo, &call) {
+			call := sprintfView(cinfo, y)
+			if call == nil {
 				return true
 			}
 			format, vas := verbArgs(cinfo, call)
@@ -700,7 +710,7 @@ func checkAndJoinedFragments(w *World, r *Result, rel string) int {
 				text := ""
 				if tv := info.Types[a]; tv.Value != nil && tv.Value.Kind() == constant.String {
 					text = constant.StringVal(tv.Value)
-				} else if sp, ok := ast.Unparen(a).(*ast.CallExpr); ok && isSprintf(info, &sp) {
+				} else if sp := sprintfView(info, ast.Unparen(a)); sp != nil {
 					text, _ = verbArgs(info, sp)
 				} else {
 					continue
